@@ -61,6 +61,10 @@ func (c15) Plan(tier string, seed int64) []core.Scenario {
 	if tier == "thorough" {
 		ns = 4
 	}
+	// control-frame traffic (pings every 200 us from the peer) while the connection ends
+	for i, cause := range []string{"srvcancel", "srvcancel", "closer", "FIN", "srvcancel", "RST"} {
+		out = append(out, core.Sc("end").WithS("cause", cause).WithS("work", []string{"unary", "all", "none"}[i%3]).WithN("react", i%4).WithN("flood", 2).WithN("rep", i))
+	}
 	for rep := 0; rep < ns; rep++ {
 		for _, cause := range []string{"srvcancel", "closeframe", "fin"} {
 			out = append(out, core.Sc("stalled").WithS("cause", cause).WithN("rep", rep))
@@ -226,7 +230,13 @@ func c15run(sc core.Scenario, r *core.R) {
 		pol.Skew = map[string]time.Duration{"ws.exit.begin": 2 * time.Millisecond, "h.lazy.acquire": time.Millisecond}
 	}
 	defer pol.Install()()
-	cl, err := env.NewClient(ClientOpt{RevIdent: "A", Opts: []jsonrpc.Option{jsonrpc.WithNoReconnect()}})
+	copts := []jsonrpc.Option{jsonrpc.WithNoReconnect()}
+	if sc.I("flood") == 2 {
+		// keepalive traffic instead of requests: the peer pings every 200 us, so control frames (pings, and the
+		// pongs answering the server's own 50 ms pings) keep arriving while the connection ends
+		copts = append(copts, jsonrpc.WithPingInterval(200*time.Microsecond), jsonrpc.WithTimeout(3*time.Second))
+	}
+	cl, err := env.NewClient(ClientOpt{RevIdent: "A", Opts: copts})
 	if err != nil {
 		r.Inconclusive("client: %v", err)
 		return
@@ -412,7 +422,7 @@ func c15run(sc core.Scenario, r *core.R) {
 	if !labelled {
 		r.Inconclusive("no goroutine carried the jrpc-mode=wsserver label while the connection was alive: the leak oracle is blind")
 	}
-	r.Key(fmt.Sprintf("%s %s react=%d flood=%v", cause, work, react, flood), len(toks) > 0)
+	r.Key(fmt.Sprintf("%s %s react=%d flood=%v pings=%v", cause, work, react, flood, sc.I("flood") == 2), len(toks) > 0 || sc.I("flood") == 2)
 	r.Obs("handlers_in_progress", int64(len(toks)))
 	r.Obs("connections_ended", 1)
 	r.Sig(core.Log.Signature())
